@@ -359,4 +359,22 @@ func runC14(c *Ctx) {
 	}
 	_ = token.ADD
 	_ = locks.Held{}
+	// the forged advertisement reaches the hunted station only: the sender does not recompute the Ethernet
+	// destination (address-less targets are reached through their unicast MAC with a multicast IPv6 destination)
+	r.Rule("na-destination", "the Ethernet destination of an emitted ICMPv6 frame is the MAC the caller passed", 1)
+	if fn := c.A.Method("", "Session", "icmp6SendPacket"); fn != nil {
+		for _, site := range callsIn(fn, nameIs("EncodeEther")) {
+			args := site.Common().Args
+			if len(args) != 4 {
+				continue
+			}
+			dn := norm(args[3])
+			st := core.Proved
+			if dn != "local(dstAddr).MAC" && dn != "arg1.MAC" {
+				st = core.Violated
+			}
+			r.Add(core.Obligation{Rule: "na-destination", Key: "na-destination icmp6SendPacket", Func: core.FuncName(fn), Pos: c.P.Pos(core.PosOf(site.(ssa.Instruction))), Status: st,
+				Basis: "EncodeEther destination = dstAddr.MAC", Detail: "icmp6SendPacket sends to " + dn + " instead of the dstAddr.MAC it was given: a forged advertisement addressed to one hunted station can reach every node"})
+		}
+	}
 }
